@@ -199,10 +199,14 @@ func verifEntry(depth int) (rel.Value, int) {
 		case ifExistsMerge:
 			if payload == 2 {
 				valid = vValid
+			} else if payload == 1 {
+				valid = vInvalid // merge never takes a file, whatever exists
 			}
 		case ifExistsRemove:
 			if payload == 0 {
 				valid = vValid
+			} else {
+				valid = vInvalid // remove never takes a payload, whatever exists
 			}
 		default:
 			if payload != 0 {
